@@ -83,7 +83,7 @@ func RandomStmt(r *rand.Rand, depth int, vo ValOpts) ref.Stmt {
 	}
 }
 
-var specCmds = []string{"/", "/a", "/a/b", "/crud/read", "/msg/send", "/x-y/z", "/é"}
+var specCmds = []string{"/", "/a", "/a/b", "/crud/read", "/msg/send", "/x-y/z", "/é", "/a//b", "//a", "/ほげ/ふが", "/x"}
 
 // RandomCID draws a CIDv1 dag-cbor sha2-256 of random bytes.
 func RandomCID(r *rand.Rand) cid.Cid { return ref.CID(Bytes(r, 16)) }
@@ -135,6 +135,16 @@ func RandomSpec(r *rand.Rand, typ string, o SpecOpts) *TokenSpec {
 		if r.IntN(12) == 0 && !o.NoBig {
 			s.Nonce = Bytes(r, Pick(r, []int{1023, 1024, 1025, 3000}))
 		}
+	}
+	// metadata integers are not restricted to 53 bits: given as IPLD nodes they are taken verbatim
+	if !o.Minimal && r.IntN(6) == 0 {
+		big := Pick(r, []int64{1 << 53, -(1 << 53), 1<<63 - 1, -(1 << 63), 1700000000000000000, 1<<53 + 1})
+		v := ref.Int(big)
+		if r.IntN(2) == 0 {
+			v = ref.List(ref.Map(ref.E("n", ref.Int(big))))
+		}
+		s.Meta.M = append(s.Meta.M, ref.KV{K: "zz-int", V: v})
+		s.Meta.M = NormMapKeys(s.Meta.M)
 	}
 	// now and then a single large value (size diversity: >= 1 KiB strings / byte strings)
 	if !o.Minimal && !o.NoBig && r.IntN(8) == 0 {
